@@ -450,6 +450,68 @@ theorem for_in_nil_array_raises (f : Nat) (ctx : Ctx) (env : Env) (x : Name) (lc
     evalGen (f + 1) ctx env x lc i qs body ty o s = throwE .nil_pointer s := by
   constructor <;> simp only [evalForIn, evalGen, bind_eq, M.bind, load, h]
 
+/-! ### element-wise array arithmetic -/
+
+/-- **`a + b`, `a - b` on arrays: shape conformance, then element by element.**  For two non-nil arrays with extents `d1`,
+`d2`: exactly when C12's guard `Idx.canAdd` holds — i.e. (`Idx.shape_conformance`) same number of dimensions and the
+same extents, `d1 = d2` — the result is a fresh array of that shape whose cells hold `binop op` of the corresponding
+elements, in order; otherwise `wrong_array_size` is raised and nothing is allocated. -/
+theorem array_add_shape_conformance (op : BinOp) (s : St) (o1 o2 : Loc) (d1 d2 : List Nat) (e1 e2 : Array Loc)
+    (h1 : s.mem[o1]? = some (.arrObj d1 e1)) (h2 : s.mem[o2]? = some (.arrObj d2 e2)) :
+    (Idx.canAdd (extDv d1) (extDv d2) = true ↔ d1 = d2) ∧
+    arrZip op (some o1) (some o2) s =
+      if d1 = d2 then
+        (do let v1 ← loadVals e1.toList
+            let v2 ← loadVals e2.toList
+            let cells ← allocRes (List.zipWith (binop op) v1 v2)
+            newArr d2 cells) s
+      else throwE .wrong_array_size s := by
+  refine ⟨canAdd_extDv d1 d2, ?_⟩
+  by_cases h : d1 = d2
+  · simp only [arrZip, arrObjOf, bind_eq, M.bind, load, h1, h2, pure, M.pure, (canAdd_extDv d1 d2).mpr h, if_true, if_pos h]
+  · have hc : Idx.canAdd (extDv d1) (extDv d2) = false := by
+      cases hx : Idx.canAdd (extDv d1) (extDv d2)
+      · rfl
+      · exact absurd ((canAdd_extDv d1 d2).mp hx) h
+    simp only [arrZip, arrObjOf, bind_eq, M.bind, load, h1, h2, pure, M.pure, hc, Bool.false_eq_true, if_false, if_neg h]
+
+/-- the cells of an element-wise result: when every element operation yields a value, the new cells are consecutive
+fresh cells holding those values in order (nothing else changes) -/
+theorem elementwise_result_cells (vs : List Val) (s : St) :
+    allocRes (vs.map OpRes.val) s =
+      .ok ((List.range vs.length).map (fun k => s.mem.size + k)) { s with mem := s.mem ++ vs.toArray } :=
+  allocRes_vals vs s
+
+/-- **`a * b` on arrays is the matrix product, guarded by C12's `Idx.canMult`**: both 2-dimensional with
+columns(a) = rows(b) (`Idx.shape_conformance`), result `rows(a) × columns(b)` with entries `Σ_k a[i,k] * b[k,j]` computed in
+the element type starting from 0 (`matEntries`); any other pair of shapes raises `wrong_array_size`. -/
+theorem array_mul_shape_conformance (s : St) (o1 o2 : Loc) (d1 d2 : List Nat) (e1 e2 : Array Loc)
+    (h1 : s.mem[o1]? = some (.arrObj d1 e1)) (h2 : s.mem[o2]? = some (.arrObj d2 e2)) :
+    (∀ r1 c1 c2, d1 = [r1, c1] → d2 = [c1, c2] →
+      matMul (some o1) (some o2) s =
+        (do let v1 ← loadVals e1.toList
+            let v2 ← loadVals e2.toList
+            let cells ← allocRes (matEntries r1 c1 c2 v1 v2)
+            newArr [r1, c2] cells) s) ∧
+    ((¬ ∃ r1 c1 c2, d1 = [r1, c1] ∧ d2 = [c1, c2]) → matMul (some o1) (some o2) s = throwE .wrong_array_size s) := by
+  constructor
+  · rintro r1 c1 c2 rfl rfl
+    have hc := (canMult_extDv [r1, c1] [c1, c2]).mpr ⟨r1, c1, c2, rfl, rfl⟩
+    simp only [matMul, arrObjOf, bind_eq, M.bind, load, h1, h2, pure, M.pure, hc, if_true]
+  · intro hn
+    have hc : Idx.canMult (extDv d1) (extDv d2) = false := by
+      cases hx : Idx.canMult (extDv d1) (extDv d2)
+      · rfl
+      · exact absurd ((canMult_extDv d1 d2).mp hx) hn
+    simp only [matMul, arrObjOf, bind_eq, M.bind, load, h1, h2, pure, M.pure, hc, Bool.false_eq_true, if_false]
+
+/-- a nil operand of array arithmetic raises `nil_pointer` (before any shape is looked at) -/
+theorem array_arith_nil (op : BinOp) (a : Option Loc) (f : Val → OpRes) (s : St) :
+    arrZip op none a s = throwE .nil_pointer s ∧ arrZip op a none s = throwE .nil_pointer s ∧
+    matMul none a s = throwE .nil_pointer s ∧ matMul a none s = throwE .nil_pointer s ∧
+    arrMap f none s = throwE .nil_pointer s := by
+  cases a <;> simp [arrZip, matMul, arrMap]
+
 /-! ### the pipe operator -/
 
 /-- **`x |> f(args)` is `f(x, args)`.**  The arguments are evaluated first (right to left), THEN the piped expression,
@@ -661,6 +723,31 @@ example : ∃ s', evalGenRng 6 {} [] "x" none 3 (decide ((3 : Int) < (1 : Int32)
   obtain ⟨s', h1, h2, h3, h4, _, _⟩ := comprehension_over_range_denotation {} [] "x" 0 1 3 1 6 stC [0] #[] rfl rfl (by decide)
     (by decide) (by decide)
   exact ⟨s', h1, h2, h3, h4 0 (by decide), h4 1 (by decide), h4 2 (by decide)⟩
+
+/-! array arithmetic -/
+
+private def a3 (x y z : Int) : Expr := .arrLit [3] [i x, i y, i z] .int
+private def prtAll (e : Expr) : Item := .expr (.forIn "q" e (.builtin .print [.var "q"]))
+/-- `[1,2,3] + [10,20,30]` is `[11,22,33]`; `2 * [3,5,7]` is `[6,10,14]`; `-[1,2,3]`; `[5,5,5] - [1,2,3]` -/
+example : (eval (mk [prtAll (.bin .add (a3 1 2 3) (a3 10 20 30))]) [] 40).out = [49, 49, 13, 10, 50, 50, 13, 10, 51, 51, 13, 10] := by decide +kernel
+example : (eval (mk [prtAll (.bin .mul (i 2) (a3 3 5 7))]) [] 40).out = [54, 13, 10, 49, 48, 13, 10, 49, 52, 13, 10] := by decide +kernel
+example : (eval (mk [prtAll (.un .neg (a3 1 2 3))]) [] 40).out = [45, 49, 13, 10, 45, 50, 13, 10, 45, 51, 13, 10] := by decide +kernel
+example : (eval (mk [prtAll (.bin .sub (a3 5 5 5) (a3 1 2 3))]) [] 40).out = [52, 13, 10, 51, 13, 10, 50, 13, 10] := by decide +kernel
+/-- shapes that do not conform: `[1,2,3] + [1,2]` raises `wrong_array_size` (`array_add_shape_conformance`) -/
+example : (eval (mk [prtAll (.bin .add (a3 1 2 3) (.arrLit [2] [i 1, i 2] .int))]) [] 40).exc? = some .wrong_array_size := by decide +kernel
+/-- `[[1,2],[3,4]] * [[5,6],[7,8]]` is `[[19,22],[43,50]]`; a 2×2 times a 3×1 raises `wrong_array_size` -/
+example : (eval (mk [prtAll (.index (.bin .mul (.arrLit [2, 2] [i 1, i 2, i 3, i 4] .int) (.arrLit [2, 2] [i 5, i 6, i 7, i 8] .int)) [i 1, i 0]
+    |> fun e => .arrLit [1] [e] .int)]) [] 40).out = [52, 51, 13, 10] := by decide +kernel
+example : (eval (mk [.expr (.index (.bin .mul (.arrLit [2, 2] [i 1, i 2, i 3, i 4] .int) (.arrLit [3, 1] [i 5, i 6, i 7] .int)) [i 0, i 0])]) [] 40).exc?
+    = some .wrong_array_size := by decide +kernel
+/-- the hypotheses of the store-level theorems: two array objects of extents `[2]` and `[3]` -/
+private def stA : St := { mem := #[.arrObj [2] #[2, 3], .arrObj [3] #[2, 3, 4], .int 1, .int 2, .int 3] }
+example : arrZip .add (some 0) (some 1) stA = throwE .wrong_array_size stA := by
+  rw [(array_add_shape_conformance .add stA 0 1 [2] [3] _ _ rfl rfl).2]; rfl
+example : (arrZip .add (some 0) (some 0) stA matches .ok (.arr (some 7)) _) = true := by
+  rw [(array_add_shape_conformance .add stA 0 0 [2] [2] _ _ rfl rfl).2]; rfl
+example : matMul (some 0) (some 1) stA = throwE .wrong_array_size stA :=
+  (array_mul_shape_conformance stA 0 1 [2] [3] _ _ rfl rfl).2 (by rintro ⟨r1, c1, c2, h, _⟩; cases h)
 
 end Examples
 
